@@ -1194,6 +1194,9 @@ emittentativedefns(void)
 	for (d = tentativedefns; d; d = d->next) {
 		if (d->defined)
 			continue;
+		/* 6.9.2p2,5: the implicit initializer '= 0' completes an array type with one element */
+		if (d->type->kind == TYPEARRAY && d->type->incomplete && !d->type->base->incomplete && d->linkage == LINKEXTERN)
+			d->type = mkarraytype(d->type->base, d->type->qual, 1);
 		if (d->type->incomplete)
 			error(&d->u.obj.tentative, "object '%s' has incomplete type", d->name);
 		defineobj(d, NULL, false, NULL);
